@@ -135,7 +135,7 @@ Proof.
 Qed.
 
 Lemma good_function_rettype l : good l cand_function follow_rettype.
-Proof. apply good_function_f; [apply fshift_rettype | apply isuf_rejects_rettype]. Qed.
+Proof. apply good_function_f; [apply fshift_rettype | apply isuf_rejects_rettype | apply finv_rettype]. Qed.
 
 (* ---------- the return type (type_seq): no candidate of either shape inside it ---------- *)
 (* a suffix of a return type at the top level of its groups, followed by the body's "{" *)
